@@ -348,6 +348,24 @@ def modules_part(rep, quick):
                         rep.violation(f"{how}:{name}:continuation_differs", f"{name} reloaded via {how} evolves differently under one further update", {"kind": "module", "module": name, "variant": variant, "how": how})
                     if da == d0:
                         raise tlc.MachineryError(f"continuation step did not change {name} (vacuous)")
+                    # a later snapshot written to the SAME path must reload to the later parameters (no stale state), and
+                    # two copies loaded from one file must not share state
+                    if how == "pickle":
+                        try:
+                            da2 = _one_step(m, call)  # m is now two steps ahead of the first snapshot (the reloaded copy one)
+                            save_pickle(fn, m)
+                            mr = load_pickle(fn, nnx.graphdef(m))
+                            if digest(mr) != da2:
+                                rep.violation(f"pickle:{name}:resave_same_path_stale", f"{name}: after saving a later snapshot to the same file, load_pickle returns different parameters than were saved",
+                                              {"kind": "module", "module": name, "variant": variant, "how": how})
+                            else:
+                                mr2 = load_pickle(fn, nnx.graphdef(m))
+                                _one_step(mr, call)
+                                if digest(mr2) != da2 or digest(m) != da2:
+                                    rep.violation(f"pickle:{name}:reloaded_shares_state", f"{name}: updating one reloaded copy changed another copy loaded from the same file (or the saved original)",
+                                                  {"kind": "module", "module": name, "variant": variant, "how": how})
+                        except Exception as e:
+                            rep.violation(f"save_pickle:{name}:exception:{type(e).__name__}", f"second pickle round trip of {name} raised {e!r}", {"kind": "module", "module": name, "variant": variant, "how": how})
                     # the continuation step changed m: rebuild it for the next method
                     m = make(rep.seed + 11 * variant)
                     nnx.update(m, jax.tree_util.tree_unflatten(tdef, new))
